@@ -196,7 +196,32 @@ class Resolver:
                     return mk([owners[0].qualname, EXTERNAL_USER])
             # method of a builtin value (bytes.split, list.append, dict.get, int.to_bytes, ...)
             return mk([BUILTIN])
+        # getattr(self, NAME)(...): a method chosen by name - a constant, or a name drawn from a module-level constant table
+        if isinstance(fn, ast.Call) and isinstance(fn.func, ast.Name) and fn.func.id == "getattr" and len(fn.args) == 2 and selfname and clsq \
+                and isinstance(fn.args[0], ast.Name) and fn.args[0].id == selfname:
+            names = self._dispatch_names(f, fn.args[1])
+            tg = [m.qualname for m in (self.method(clsq, n) for n in sorted(names)) if m is not None]
+            if tg:
+                return mk(tg)
         return mk([UNKNOWN])
+
+    def _dispatch_names(self, f: FuncInfo, arg) -> set:
+        """Strings the name argument of getattr(self, <arg>) may take: a constant, or any string constant of the module-level
+        table a for-loop in the function draws the variable from."""
+        if isinstance(arg, ast.Constant) and isinstance(arg.value, str):
+            return {arg.value}
+        out = set()
+        if isinstance(arg, ast.Name):
+            for n in walk_no_nested(f.node):
+                if isinstance(n, (ast.For, ast.comprehension)) and any(isinstance(t, ast.Name) and t.id == arg.id for t in ast.walk(n.target)):
+                    for src in ast.walk(n.iter):
+                        if isinstance(src, ast.Name):
+                            for st in self.repo.modules[f.module].tree.body:
+                                if isinstance(st, (ast.Assign, ast.AnnAssign)):
+                                    tgts = st.targets if isinstance(st, ast.Assign) else [st.target]
+                                    if any(isinstance(t, ast.Name) and t.id == src.id for t in tgts) and st.value is not None:
+                                        out |= {c.value for c in ast.walk(st.value) if isinstance(c, ast.Constant) and isinstance(c.value, str)}
+        return out
 
     # ------------------------------------------------------------------ call graph
     def callees(self, qual: str) -> set[str]:
